@@ -203,10 +203,15 @@ def observe_description(formula):
 
 
 def run_reference(req):
-    """Executed in a pristine grandchild: set mode, build, optionally evaluate."""
+    """Executed in a pristine grandchild: set mode, build, optionally evaluate.  Transforms the host program
+    registered in the simulated history are registered here at the same place relative to the build."""
     base_warning_filters()
     formulae.config[KEY] = req["mode"]
+    for name in req.get("regs_before", []):
+        prelude.register_clash(name)
     if "describe" in req:
+        for name in req.get("regs_before", []):
+            pass  # already registered above
         try:
             return {"describe": ("ok", observe_description(req["describe"]))}
         except Exception as e:  # noqa: BLE001
@@ -221,6 +226,8 @@ def run_reference(req):
         out["build"] = ("raise", type(e).__name__)
         return out
     out["build"] = ("ok", observe_design(dm), sorted(w.category.__name__ for w in wl))
+    for name in req.get("regs_after", []):
+        prelude.register_clash(name)
     ev = req.get("eval")
     if ev is not None:
         part = getattr(dm, ev["part"])
@@ -271,6 +278,7 @@ class World:
         self.count_lines = any((op.get("fault") or {}).get("kind") == "inject" for op in scenario["ops"])
         self.suppress = suppress or (lambda v: False)
         self.suppressed = []
+        self.regs = []  # names registered by the host program so far, in order
         self.dump = None  # list of per-step observables when requested
         self.last_obs = None
 
@@ -375,9 +383,12 @@ class World:
                     self.nhat[key] = n
 
     # -- reference requests
-    def ref_request(self, build_op, eval_part=None, eval_fid=None):
+    def ref_request(self, build_op, eval_part=None, eval_fid=None, n_regs_at_build=None):
+        k = len(self.regs) if n_regs_at_build is None else n_regs_at_build
         req = {
             "mode": self.mode,
+            "regs_before": self.regs[:k],
+            "regs_after": self.regs[k:],
             "clients": self.sc["clients"],
             "ns_extra": self.ns_extra,
             "build": {
@@ -474,7 +485,7 @@ class World:
             else:
                 retained = list(range(n))
             self.designs[op["id"]] = {
-                "dm": dm, "op": op, "obs0": obs, "fp": digest(obs), "retained": retained,
+                "dm": dm, "op": op, "obs0": obs, "fp": digest(obs), "retained": retained, "n_regs": len(self.regs),
                 "n_evals": 0, "failed_eval": False, "widened_desc": False, "mode_at_build": self.mode,
             }
             ev["sd"] = digest(obs, numeric=False)
@@ -499,7 +510,8 @@ class World:
                                   f"fresh process: {d}")
         if rebuild_of is not None and "S" in self.oracles and outcome == "ok":
             orig = self.designs.get(rebuild_of)
-            if orig is not None:
+            # (a transform registered by the host program in between legitimately changes what a NEW build resolves)
+            if orig is not None and orig.get("n_regs", 0) == len(self.regs):
                 self.bump("check.S.rebuild")
                 d = compare_obs(orig["obs0"], self.designs[op["id"]]["obs0"], "design", self.stats)
                 if d:
@@ -592,7 +604,7 @@ class World:
         # ---- oracle A
         if "A" in self.oracles and outcome in ("ok", "raise"):
             self.bump("check.A.eval")
-            refo = self.ref_request(root["op"], part, op["frame"])
+            refo = self.ref_request(root["op"], part, op["frame"], n_regs_at_build=root.get("n_regs", 0))
             ref = refo.get("eval") or ("nobuild",) + tuple(refo["build"][1:2])
             if outcome == "raise":
                 if ref[0] != "raise" or ref[1] != info["type"]:
@@ -706,6 +718,16 @@ class World:
                               f"{key}={stored!r}")
         return {"op": "set_config", "outcome": "raise:" + raised if raised else "ok", "sd": repr((key, value))}
 
+    def op_register(self, op):
+        """The host program registers a stateful transform (public API).  Designs built before keep what they
+        resolved at build time; the registry snapshot of oracle S is updated: the caller changed it, not formulae."""
+        prelude.register_clash(op["name"])
+        self.regs.append(op["name"])
+        self.reg_fp = self.registries_fp()
+        self.bump("op.register")
+        self.bump("fault.fired.caller.register")
+        return {"op": "register", "outcome": "ok", "sd": op["name"]}
+
     def op_refill(self, op):
         fid = op["frame"]
         if fid not in self.frame_live:
@@ -759,7 +781,7 @@ class World:
         self.last_obs = list(obs)
         if "A" in self.oracles:
             self.bump("check.A.describe")
-            ref = self.ref.ask({"mode": self.mode, "describe": op["formula"]})["describe"]
+            ref = self.ref.ask({"mode": self.mode, "describe": op["formula"], "regs_before": list(self.regs)})["describe"]
             d = compare_obs(list(obs), list(ref), "description")
             if d:
                 self.fail("A", "describe-value", "model_description",
@@ -841,7 +863,7 @@ class World:
         self.bump(f"sweep.eval.points.{mode}", points)
         self.sweep_ctx = None
         if "A" in self.oracles:
-            refo = self.ref_request(root["op"], part, op["frame"])
+            refo = self.ref_request(root["op"], part, op["frame"], n_regs_at_build=root.get("n_regs", 0))
             ref = refo.get("eval")
             if ref and ref[0] == "ok":
                 again, _ = _do_eval(obj, frame)
